@@ -252,6 +252,8 @@ pub fn decorations(j: &J) -> Vec<Deco> {
                 with("field-aliases", true, &|x| x["aliases"] = json!(["old_name", "older"]));
                 with("field-order-descending", true, &|x| x["order"] = json!("descending"));
                 with("field-order-ignore", true, &|x| x["order"] = json!("ignore"));
+                // a custom attribute whose key means something on a type but nothing on a field
+                with("field-custom-named-namespace", true, &|x| x["namespace"] = json!("legacy.elsewhere"));
                 with("field-custom-scalar", true, &|x| x["x-custom"] = json!(42));
                 with("field-custom-object", true, &|x| x["x-meta"] = json!({"k": [1, "two", null], "n": {"deep": true}}));
                 if here.get("default").is_none() {
